@@ -7,7 +7,7 @@
    per generated program by running the real instruction words in Bpf.v on probe packets. *)
 From Coq Require Import List NArith Bool.
 From Verif.Common Require Import Packet PolicyRef.
-From Verif.C11 Require Import Bpf Model Spec Proofs ProofsRule ProofsTiers ProofsMain ProofsSplit ProofsSets ProofsCut ProofsFinal.
+From Verif.C11 Require Import Bpf Model Spec Proofs ProofsRule ProofsTiers ProofsMain ProofsSplit ProofsSets ProofsCut ProofsPinned ProofsFinal.
 Import ListNotations.
 Open Scope N_scope.
 
@@ -93,6 +93,22 @@ Theorem c11_rule_exact : forall v s bs kind ps rid b tg dleg c rid',
              = if rule_matches s (b_rule b) (packet_of v ps dleg) then end_mode tg else None.
 Proof. exact c11_rule_exact_pf. Qed.
 Print Assumptions c11_rule_exact.
+
+(* The UNCHANGED (pinned) builder: on every valid configuration that stays clear of the three known-finding classes
+   (no profile rule with action Log or Pass, no protocol given by the name icmpv6 / udplite) it compiles and its
+   program reaches the reference verdict. *)
+Theorem c11_ir_verdict_pinned : forall v s bs kind ps r p,
+  sets_agree kind s bs -> addrs_in_range v ps ->
+  valid_rules r = true -> typed_rules kind r = true -> clear_of_findings r = true ->
+  instructions pinned_variant v r = WOk p ->
+  forall lg, final_verdict (br_xdp r) (fst (exec (eval_cond v bs ps) p None lg)) = ref_verdict s v r ps.
+Proof. exact c11_ir_verdict_pinned_pf. Qed.
+Print Assumptions c11_ir_verdict_pinned.
+
+Theorem c11_pinned_compiles : forall v r,
+  valid_rules r = true -> clear_of_findings r = true -> exists p, instructions pinned_variant v r = WOk p.
+Proof. exact c11_pinned_compiles_pf. Qed.
+Print Assumptions c11_pinned_compiles.
 
 (* (1) writeProfile has no "log" label: a valid configuration makes the builder panic *)
 Theorem c11_profile_log_pinned_panics :
